@@ -378,14 +378,20 @@ impl ASN1Type {
                     ))
                 }
             }
-            ASN1Type::Sequence(s) | ASN1Type::Set(s) => s
-                .members
-                .iter_mut()
-                .try_for_each(|m| m.ty.link_choice_selection_type(tlds)),
-            ASN1Type::Choice(c) => c
-                .options
-                .iter_mut()
-                .try_for_each(|o: &mut ChoiceOption| o.ty.link_choice_selection_type(tlds)),
+            // the selected alternative's tag belongs to its type (X.680 30.2), so a component or
+            // alternative that has no tag of its own carries it
+            ASN1Type::Sequence(s) | ASN1Type::Set(s) => s.members.iter_mut().try_for_each(|m| {
+                if m.tag.is_none() {
+                    m.tag = m.ty.selected_alternative_tag(tlds);
+                }
+                m.ty.link_choice_selection_type(tlds)
+            }),
+            ASN1Type::Choice(c) => c.options.iter_mut().try_for_each(|o: &mut ChoiceOption| {
+                if o.tag.is_none() {
+                    o.tag = o.ty.selected_alternative_tag(tlds);
+                }
+                o.ty.link_choice_selection_type(tlds)
+            }),
             ASN1Type::SequenceOf(s) | ASN1Type::SetOf(s) => {
                 s.element_type.link_choice_selection_type(tlds)
             }
